@@ -1072,6 +1072,14 @@ func genCliAuth(rng *rand.Rand, thorough bool, emit func(*Sx)) {
 		}
 	}
 	irs := [][]byte{nil, {}, []byte("\x00user\x00pass"), {0, 255, 13, 10}, allBytes()}
+	// long initial responses (a token of several hundred octets): refused, accepted at once, or continued
+	for _, n := range []int{300, 372, 380, 600, 1400} {
+		long := bytes.Repeat([]byte("t0ken/"), n/6+1)[:n]
+		for _, srv := range [][]int{{s535}, {s235}, {s334empty, s235}, {s334, s535}, {sGarbage}} {
+			one("XOAUTH2", long, false, []saslStep{{resp: []byte{}}}, srv)
+			one("PLAIN", long, false, nil, srv)
+		}
+	}
 	// 0 and 1 client steps: exhaustive
 	for _, ir := range irs {
 		for s0 := 0; s0 < nServer; s0++ {
